@@ -83,8 +83,8 @@ def load_known(path=None) -> List[dict]:
     return data.get("findings", [])
 
 
-def finish(rep: Report, level="other", explanation="", assumptions=(), trusted=()):
-    """Apply known findings, write evidence, print verdict lines, return exit code."""
+def triage(rep: Report):
+    """Split the violations into (new, matched-to-a-listed-known-finding, active known entries)."""
     known = [k for k in load_known() if k.get("property") == rep.pid]
     import fnmatch
     active = [k for k in known if k.get("status") == "known"]
@@ -99,6 +99,12 @@ def finish(rep: Report, level="other", explanation="", assumptions=(), trusted=(
             matched.append((v, hit))
         else:
             new.append(v)
+    return new, matched, active
+
+
+def finish(rep: Report, level="other", explanation="", assumptions=(), trusted=()):
+    """Apply known findings, write evidence, print verdict lines, return exit code."""
+    new, matched, active = triage(rep)
     printed = set()
     for v, k in matched:
         if k.get("id") in printed:
